@@ -63,7 +63,7 @@ def balance_tie(r):
                 ks[ints[i + 1]] = ks.get(ints[i + 1], 0) + 1
             else:
                 # which reason?  a signature imbalance is a broken tie; a tree outside the proved
-                # fragment (by / switch / unmodelled modifier) is merely not covered
+                # fragment (switch / context ops inside fork or bracket operands / unmodelled modifier) is merely not covered
                 uncovered.append(c)
     # classify uncovered: does the REAL checker say the halves are balanced?
     def usig(s):
@@ -104,7 +104,7 @@ def run(r):
         "primitives are abstract in the no-residue theorems (any psem); the lens theorems are about the reference semantics of Model/Prims.v + Model/Under.v, tied to the implementation only by the search's index-array oracle",
         "uiua::verif::depths / take_stacks report the interpreter's hidden stacks faithfully",
     ]
-    r.assumptions += ["G has no context effect of its own and lies in the frame theorem's fragment (tree_okb: no `by`, no switch)",
+    r.assumptions += ["G has no context effect of its own and lies in the frame theorem's fragment (tree_okb: no switch; operands of fork/bracket/try carry no context effect)",
                       "the stack is deep enough for the three stages (under_depth)",
                       "lens laws: arrays are well-formed (length data = product shape), indices in range, G keeps the shape"]
     if not r.harness(["c04"]):
